@@ -132,6 +132,10 @@ structure State where
   management operations take their rollback branches and answer 500. Not persisted: a restart
   clears it. -/
   primaryRO : Bool
+  /-- the registry as last *persisted* (`server:databases` in the primary's metadata): what a restart
+  reloads. It differs from `registry` after a registration of an already-registered database was
+  unwound because persisting failed (`register_db` removes the name from the in-memory registry). -/
+  durableRegistry : List String
 deriving DecidableEq, Repr
 
 def lookup : List (String × String) → String → Option String
@@ -152,7 +156,8 @@ def delName (xs : List String) (n : String) : List String :=
 
 /-- State after `AppState::connect` on an empty store. -/
 def init (cfg : Cfg) : State :=
-  { bound := [], opened := [cfg.primary], registry := [], stored := [cfg.primary], primaryRO := false }
+  { bound := [], opened := [cfg.primary], registry := [], stored := [cfg.primary], primaryRO := false,
+    durableRegistry := [] }
 
 /-- `AppState::authorize`: the binding is looked up by the scope's name only. -/
 def authorizeState (cfg : Cfg) (s : State) (scope : Scope) (presented : Option String) :
@@ -217,13 +222,15 @@ def registerDb (cfg : Cfg) (s : State) (mode : OpenMode) (name : String) (apiKey
       | .open, false => (s, .error (.dbNotFound name))
       | _, _ =>
         if s.primaryRO then
-          ({ s with stored := addName s.stored name }, .error .internal)
+          -- unwound: the name also leaves the in-memory registry, even if it was registered before
+          ({ s with stored := addName s.stored name, registry := delName s.registry name }, .error .internal)
         else
           let bound := match apiKey with
             | some k => setKey s.bound name k
             | none => s.bound
           ({ s with bound := bound, opened := addName s.opened name, registry := addName s.registry name,
-                    stored := addName s.stored name }, .ok (.metadata name))
+                    stored := addName s.stored name, durableRegistry := addName s.registry name },
+           .ok (.metadata name))
 
 /-- `close_db`: the binding is kept on purpose. When the registry cannot be persisted the database
 is closed all the same, stays registered, and the caller gets the persistence error. -/
@@ -231,7 +238,8 @@ def closeDb (cfg : Cfg) (s : State) (name : String) : State × Except ApiError R
   if name == cfg.primary then (s, .error .primaryCannotClose)
   else if !s.opened.contains name && !s.registry.contains name then (s, .error (.dbNotFound name))
   else if s.primaryRO then ({ s with opened := delName s.opened name }, .error .internal)
-  else ({ s with opened := delName s.opened name, registry := delName s.registry name }, .ok .unit)
+  else ({ s with opened := delName s.opened name, registry := delName s.registry name,
+                 durableRegistry := delName s.registry name }, .ok .unit)
 
 /-- `require_known_db`. -/
 def knownDb (s : State) (name : String) : Bool :=
@@ -584,7 +592,8 @@ def touchedDb (resp : Response) : Option String :=
 /-- A clean stop followed by `AppState::connect` over the same store with the same options:
 the primary and every registered database that still exists are reopened, bindings are reloaded. -/
 def restart (cfg : Cfg) (s : State) : State :=
-  { s with opened := cfg.primary :: (s.registry.filter (fun n => !(n == cfg.primary) && s.stored.contains n)),
+  { s with opened := cfg.primary :: (s.durableRegistry.filter (fun n => !(n == cfg.primary) && s.stored.contains n)),
+           registry := s.durableRegistry.filter (fun n => !(n == cfg.primary)),
            primaryRO := false }
 
 /-- What can happen to a running service: a request (from anybody, about anything), or a clean
